@@ -130,6 +130,41 @@ def r1810(P, rep):
         rep.undecided('R18.10', '%s:tokenize:liveness' % T, 'only %d calls of scanner functions that can raise a byte-level diagnostic were found' % n)
 
 
+def _confined(fd, call):
+    """True when no token of the File created by `call` can leave function fd: the token list is bound to one local variable
+    that is never reassigned, and every use of it reads a scalar member (kind, loc, len) or passes it to a diagnostic that
+    does not return.  Everything else (returning it, storing it, passing it or its address to any other function) is an escape."""
+    from .interp import NORETURN
+    var = None
+    for d in fd.walk():
+        if d.kind == 'VarDecl' and any(x is call for x in d.walk()):
+            var = d
+    if var is None or not var.inner:
+        return False
+    init = var.inner[-1].strip_all()
+    if not (init.kind == 'CallExpr' and init.callee() == 'tokenize' and len(init.args()) == 1 and init.args()[0].strip_all() is call):
+        return False
+    uses = 0
+    for r in fd.walk():
+        if not (r.kind == 'DeclRefExpr' and r.ref_name == var.name and r.ref_kind == 'VarDecl'):
+            continue
+        uses += 1
+        p = r.parent
+        while p is not None and p.kind in ('ImplicitCastExpr', 'ParenExpr'):
+            p = p.parent
+        if p is None:
+            return False
+        if p.kind == 'MemberExpr' and p.name in ('kind', 'loc', 'len'):
+            q = p.parent
+            if q is not None and q.kind == 'ImplicitCastExpr':      # an rvalue read (LValueToRValue), not &tok->loc or an assignment target
+                continue
+            return False
+        if p.kind == 'CallExpr' and p.callee() in NORETURN and str(p.callee()).startswith('error'):
+            continue
+        return False
+    return uses > 0
+
+
 def r1811(P, rep):
     rep.rule('R18.11', 'the number of a File is what .loc prints for every token of it, and the .file table has one entry per REGISTERED file: every File that is created '
              '(call of new_file) gets either the fresh number under which the same function registers it in the table of input files, or the number of the file of the '
@@ -170,6 +205,10 @@ def r1811(P, rep):
                     lit = x.int_value()
                 except Exception:
                     lit = None
+                if lit is not None and _confined(fd, c):
+                    # the File is a scratch buffer for lexing one name: no token of it leaves the function, so none can reach .loc
+                    rep.ob('R18.11', base + '/constant-%d-never-leaves' % lit, True, '', where=where)
+                    continue
                 if lit is not None:
                     rep.ob('R18.11', base + '/constant-%d' % lit, False,
                            '%s() creates a File with the constant number %d: it is not registered in the table of input files under that number, so every token of it '
